@@ -66,6 +66,14 @@ fn path_shard(path: &str, k: i64, n: usize, f: ShardingFunction) -> Result<Optio
             "comment-parse" => {
                 qr.try_execute_command(&bm(&wire::parse("", &format!("/* sharding_key: {} */ SELECT $1", k), &[])));
             }
+            // the same statements at any size: padded past typical buffer / shortcut sizes
+            "comment-long" => {
+                qr.try_execute_command(&q(&format!("/* sharding_key: {} */ SELECT 1 /* {} */", k, "x".repeat(9000))));
+            }
+            "set-padded" => {
+                qr.try_execute_command(&q(&format!("SET SHARDING KEY TO '{}'{}", k, " ".repeat(300))));
+            }
+            "where-long" => infer(&mut qr, &format!("SELECT * FROM data WHERE id = {} /* {} */", k, "x".repeat(9000))),
             "where" => infer(&mut qr, &format!("SELECT * FROM data WHERE id = {}", k)),
             "where-qualified" => infer(&mut qr, &format!("SELECT * FROM public.data WHERE data.id = {} AND v > 3", k)),
             "insert" => infer(&mut qr, &format!("INSERT INTO data (id, v) VALUES ({}, 'x')", k)),
@@ -277,7 +285,7 @@ pub fn run(tier: &str) -> Part {
     distinct += (keys.len() * maxn * 2) as u64;
 
     // (4) every routing path agrees with the reference whenever it accepts the key
-    let mut paths: Vec<String> = ["set-quoted", "set-unquoted", "comment", "comment-parse", "where", "where-qualified", "insert", "update", "delete", "join"].iter().map(|s| s.to_string()).collect();
+    let mut paths: Vec<String> = ["set-quoted", "set-unquoted", "set-padded", "comment", "comment-long", "comment-parse", "where", "where-long", "where-qualified", "insert", "update", "delete", "join"].iter().map(|s| s.to_string()).collect();
     for fmt in ["text", "bin8", "bin4", "bin2"] {
         for (pos, count) in [(1usize, 1usize), (1, 2), (2, 2), (1, 3), (2, 3), (3, 3)] {
             paths.push(format!("bind-{}-{}of{}", fmt, pos, count));
@@ -313,7 +321,7 @@ pub fn run(tier: &str) -> Part {
                         ),
                         Ok(None) => {
                             // the path did not recognise the key: falls to the default shard
-                            if path.starts_with("bind") || path.starts_with("set") || path.starts_with("comment") || ["where", "insert", "update", "delete", "join", "where-qualified"].contains(&path.as_str()) {
+                            if path.starts_with("bind") || path.starts_with("set") || path.starts_with("comment") || ["where", "where-long", "insert", "update", "delete", "join", "where-qualified"].contains(&path.as_str()) {
                                 add(
                                     vio(
                                         "C06.path-miss",
